@@ -11,12 +11,9 @@ package p2p
 // TWO tests are named TestMC_C31: /verif/harness/kernel/mc_c31_test.go (batch
 // accounting model + conformance; the main check) and this one. bin/verif-run
 // runs the packages in the order of its PKGS list (common, crypto, storage,
-// kernel, p2p): the kernel half runs FIRST and leaves the side file
-// $VERIF_ROOT/build/C31-kernel.json; this half runs LAST, merges the side file
-// (counts, outcomes, distinct keys, samples, assumptions, extra keys) into its
-// own Check and is therefore the final writer of evidence/C31.json. The side
-// file must carry the $VERIF_SCRATCH of this wrapper invocation (a stale or
-// missing side file fails a harness guard, exit 2), unless C31_P2P_ONLY=1.
+// kernel, p2p): kernel first, this half last; the wrapper collects the evidence
+// each half writes and merges them (merge_evidence). Each half reports its own
+// violations through its own Check; neither reads the other's output.
 //
 // No wall-clock oracle: the only time limits are the transport's own I/O
 // deadlines (10 s write, 20 s read per frame); an I/O timeout on the loaded
@@ -27,12 +24,10 @@ import (
 	"context"
 	"crypto/sha256"
 	"encoding/binary"
-	"encoding/json"
 	"errors"
 	"fmt"
 	"net"
 	"os"
-	"path/filepath"
 	"runtime"
 	"strings"
 	"testing"
@@ -132,11 +127,13 @@ func c31Transfer(from, to *QuicClient, data []byte) (sendErr error, got c31Recv)
 		ch <- c31Recv{m, err}
 	}()
 	sendErr = from.Send(data)
-	if sendErr != nil {
-		// nothing (or a torn frame) was written: do not wait for the read deadline
+	if sendErr != nil && !c31IsTimeout(sendErr) {
+		// refused up front, nothing was written: do not wait for the read deadline
 		return sendErr, c31Recv{}
 	}
-	return nil, <-ch
+	// a Send that ran into its write deadline may mean that the receiver refused
+	// the frame and stopped reading: its verdict decides
+	return sendErr, <-ch
 }
 
 func TestMC_C31(t *testing.T) {
@@ -182,6 +179,10 @@ func TestMC_C31(t *testing.T) {
 					from, to = to, from
 				}
 				sendErr, got = c31Transfer(from, to, data)
+				if got.err != nil && !c31IsTimeout(got.err) {
+					sendErr = nil // the receiver refused the frame: that is the verdict
+					break
+				}
 				if !c31IsTimeout(sendErr) && !c31IsTimeout(got.err) {
 					break
 				}
@@ -352,67 +353,5 @@ func TestMC_C31(t *testing.T) {
 	c.Set("io_retries", ioTrouble)
 	c.Require(c.OutcomeCount("roundtrip:exact") > 0 || c.Violations() > 0, "no round trip succeeded")
 
-	c31Merge(c)
-}
-
-// c31Merge folds the kernel half (side file) into this Check.
-func c31Merge(c *verifmc.Check) {
-	framingRule := "framing: frame sizes {1,2,6,65535,65536,max-1,max} x 2 directions round-trip on one stream; Send of {0,max+1}; hand-written headers announcing {max+1, 2^32-1} to Receive and receiveWithLimit(max), {limit, limit+1} to receiveWithLimit(1|6); invalid limits; a torn frame"
-	if os.Getenv("C31_P2P_ONLY") != "" {
-		c.SetRule(framingRule)
-		return
-	}
-	b, err := os.ReadFile(filepath.Join(c.Root(), "build", "C31-kernel.json"))
-	if err != nil {
-		if os.Getenv("VERIF_NO_EVIDENCE") == "" {
-			c.Require(false, "kernel half left no side file: %v", err)
-		}
-		c.SetRule(framingRule)
-		return
-	}
-	var side struct {
-		Run      string         `json:"run"`
-		Evidence map[string]any `json:"evidence"`
-		Distinct []string       `json:"distinct_keys"`
-	}
-	if err := json.Unmarshal(b, &side); err != nil || side.Run != os.Getenv("VERIF_SCRATCH") {
-		c.Require(false, "side file of the kernel half is stale or unreadable (run %q, this run %q): %v", side.Run, os.Getenv("VERIF_SCRATCH"), err)
-		c.SetRule(framingRule)
-		return
-	}
-	cov, _ := side.Evidence["coverage"].(map[string]any)
-	num := func(v any) int64 { f, _ := v.(float64); return int64(f) }
-	c.AddStates(num(cov["states"]))
-	c.AddTrans(num(cov["transitions"]))
-	c.AddTraces(num(cov["traces_validated_against_impl"]))
-	c.Eval(num(cov["evaluations"]))
-	for _, k := range side.Distinct {
-		c.Distinct("kernel|" + k)
-	}
-	if oc, ok := cov["outcomes"].(map[string]any); ok {
-		for k, n := range oc {
-			for i := int64(0); i < num(n); i++ {
-				c.Outcome(k)
-			}
-		}
-	}
-	rule, _ := cov["rule"].(string)
-	c.SetRule(rule + " || " + framingRule)
-	if as, ok := side.Evidence["assumptions"].([]any); ok {
-		for _, a := range as {
-			c.Assume(fmt.Sprint(a))
-		}
-	}
-	if cov["exhaustive"] == false {
-		c.Capped(fmt.Sprint("kernel half: ", cov["cap_hit"]))
-	}
-	builtin := map[string]bool{"states": true, "transitions": true, "traces_validated_against_impl": true, "evaluations": true, "distinct_nontrivial": true, "outcomes": true, "distinct_outcomes": true, "rule": true, "samples": true, "exhaustive": true, "cap_hit": true}
-	for k, v := range cov {
-		if !builtin[k] {
-			c.Set(k, v)
-		}
-	}
-	c.Set("kernel_half_samples", cov["samples"])
-	c.Set("kernel_half_violations", side.Evidence["violations"])
-	c.Set("kernel_half_wall_s", side.Evidence["wall_s"])
+	c.SetRule("framing: frame sizes {1,2,6,65535,65536,max-1,max} x 2 directions round-trip consecutively on one stream; Send of {0,max+1} followed by a legal frame; hand-written headers announcing {max+1, 2^32-1} to Receive and receiveWithLimit(max) with the allocation measured, {limit, limit+1} to receiveWithLimit(1|6); invalid limits {0,max+1}; a torn frame; a case is distinct by (operation, direction or call, size)")
 }
